@@ -63,7 +63,7 @@ def mk_handler(op, tname, n):
     elif op == 'keys':
         def h(target):
             CALLS.append((tname, n, 'keys'))
-            return []
+            return ['0']
     elif op == 'assign':
         def h(target, key, val):
             CALLS.append((tname, n, 'assign'))
@@ -221,6 +221,33 @@ class Universe:
         self._sig[key] = s
         return s
 
+    def star_sig(self, out, tname):
+        """what glom(obj, T.__star__()) shows when the children of an instance of tname are enumerated with the
+        handlers of outcome `out` ({via, k, g, i}): the user handlers called, in order, and the children"""
+        obj = self.make(tname)
+        calls, children = [], []
+
+        def call(h, op, *args):
+            if h['n']:
+                calls.append((h['o'], h['n'], op))
+                return {'keys': ['0'], 'get': 'U', 'iterate': iter(())}[op]
+            return BUILTIN_FN[h['o']](obj, *args)
+        if out['via'] == 'keys+get':
+            try:
+                for key in call(out['k'], 'keys'):
+                    try:
+                        children.append(call(out['g'], 'get', key))
+                    except Exception:
+                        pass
+            except Exception:
+                pass
+        elif out['via'] == 'iterate':
+            try:
+                children.extend(call(out['i'], 'iterate'))
+            except Exception:
+                pass
+        return ('star', tuple(calls), children)
+
     def consistent_tags(self, sig, op, tname):
         """builtin / user handler tags whose effect equals the observed one"""
         if sig[0] == 'user':
@@ -328,6 +355,17 @@ class Env:
                 return ('calls',) + tuple(CALLS)
             sig = ('user', CALLS[0][0], CALLS[0][1])
         return sig
+
+    def observe_star(self, r, tname):
+        """one wildcard step through the public API: which user handlers ran, which children came out"""
+        obj = self.u.make(tname)
+        del CALLS[:]
+        run = glom.glom if r == 'default' else self.g[r].glom
+        try:
+            res = run(obj, T.__star__())
+        except Exception as e:
+            return ('exc', type(e).__name__)
+        return ('star', tuple(CALLS), list(res))
 
     # -- projection of the mechanism state (optional: private representation) ---------------
     def project(self, r, ops):
